@@ -42,6 +42,8 @@ CONSTANTS
     Win,         \* channel window in data units (one unit = one maximum packet);
                  \*   0: flow control not modelled (window never exhausted)
     AdjustOnlyOpen, \* sensitivity: WINDOW_ADJUST refused once the peer's EOF arrived
+    FlowBias,    \* generation only: ends close / reset only after MaxW units were
+                 \*   written in total (more behaviours with data in flight)
     EarlyBias,   \* generation only: the confirmation is held back until L
                  \*   wrote two units or sent its FIN (more early-data behaviours)
     DropEarly,   \* sensitivity: early data is dropped at confirmation
@@ -289,7 +291,10 @@ Eof(e) ==
        IN S' = IF s1.sock[e] = "open" THEN FwdEof(s1, e) ELSE s1
     /\ lbl' = <<"E", e>>
 
+Flowed == FlowBias => Len(S.sent.L) + Len(S.sent.R) >= MaxW
+
 Close(e) ==
+    /\ Flowed
     /\ Live /\ S.appSt[e] = "open"
     /\ LET s1 == [S EXCEPT !.appSt[e] = "closed", !.appFin[e] = TRUE,
                            !.exempt[e] = @ \/ ~S.appEof[e],
@@ -298,6 +303,7 @@ Close(e) ==
     /\ lbl' = <<"C", e>>
 
 Reset(e) ==
+    /\ Flowed
     /\ AllowReset /\ Live /\ S.appSt[e] = "open" /\ S.sock[e] = "open"
     /\ LET x == Side(e)
            s1 == [S EXCEPT !.appSt[e] = "closed", !.appFin[e] = TRUE,
